@@ -66,7 +66,7 @@ inline bool expandFormat(State &S, const CallBase *CB, const std::string &fmt, u
       unsigned __int128 hi = v.r.isFullSet() ? (unsigned __int128)APInt::getMaxValue(v.w).getZExtValue() : (unsigned __int128)v.r.getUnsignedMax().getZExtValue();
       if (v.r.isWrappedSet()) { lo = 0; hi = (unsigned __int128)APInt::getMaxValue(v.w).getZExtValue(); }
       std::vector<FmtAlt> out;
-      S.events.push_back("{\"k\":\"fmtint\",\"fn\":\"" + std::string(CB->getFunction()->getName()) + "\",\"line\":" + std::to_string(lineOf(CB)) +
+      addEvent(S, "{\"k\":\"fmtint\",\"fn\":\"" + std::string(CB->getFunction()->getName()) + "\",\"line\":" + std::to_string(lineOf(CB)) +
                          ",\"lo\":\"" + i128s((i128)lo) + "\",\"hi\":\"" + i128s((i128)hi) + "\",\"prov\":" + std::to_string(v.prov) + "}");
       for (int d = ndigits(lo); d <= ndigits(hi); d++) {
         unsigned __int128 p10 = 1; for (int k = 1; k < d; k++) p10 *= 10;
